@@ -25,9 +25,16 @@ pub enum Target {
 pub trait AnyWriter {
     fn size(&self) -> Result<usize, WErr>;
     fn write(&self, buf: &mut [u8]) -> Result<usize, WErr>;
+    /// the public `write_into_unchecked` (None where the unchecked writer is not public: SDES chunk / item builders)
+    fn write_unchecked(&self, _buf: &mut [u8]) -> Option<usize> {
+        None
+    }
 }
 
 impl<'a> AnyWriter for DynW<'a> {
+    fn write_unchecked(&self, buf: &mut [u8]) -> Option<usize> {
+        Some(self.0.write_into_unchecked(buf))
+    }
     fn size(&self) -> Result<usize, WErr> {
         self.0.calculate_size().map_err(build::werr)
     }
